@@ -25,6 +25,7 @@ def numToBytes (x : FV) : List Nat :=
   | .fin s m e =>
     if m = 0 then [48]
     else if isIntegral m e then (if s then [45] else []) ++ dec (truncAbs m e)
+    else if isIntegral (m * 2) e then (if s then [45] else []) ++ dec (truncAbs m e) ++ [46, 53]     -- k + 0.5
     else [63]     -- not generated
 
 def valToBytes (v : Val) : List Nat :=
@@ -125,45 +126,89 @@ structure Side where
   del : Key → Bool → M Obj Bool
   define : Key → Desc → Bool → M Obj Bool
   newLen : Val → Option Nat
+  freeze : Bool → M Obj Unit
   ops : Ops St
-  method : String → List Val → Option (M St Ret)
+  method : List (Nat × Val) → String → String → Option (M St Ret)
 
-def modelMethod (name : String) (args : List Val) : Option (M St Ret) :=
+/-- concat arguments: a value token, or `a:<e>:<e>…` for an array literal; holes of an array
+    argument are resolved against the inherited index properties (what [[HasProperty]]/[[Get]] see) -/
+def carg? (ps : List (Nat × Val)) (t : String) : Option CArg :=
+  match t.splitOn ":" with
+  | "a" :: es => do
+    let es ← es.mapM (fun e => if e = "_" then some none else (val? e).map some)
+    pure (.arr (((List.range es.length).zip es).map fun (i, e) =>
+      match e with
+      | some v => some v
+      | none => (ps.find? (fun q => q.1 = i)).map (·.2)))
+  | _ => (val? t).map .v
+
+def cargs? (ps : List (Nat × Val)) (t : String) : Option (List CArg) := (splitList t).mapM (carg? ps)
+
+/-- `name!` = the same method called with a non-callable first argument -/
+def splitBang (name : String) : String × Bool :=
+  if name.endsWith "!" then ((name.dropEnd 1).toString, false) else (name, true)
+
+def modelMethod (ps : List (Nat × Val)) (name : String) (argTok : String) : Option (M St Ret) :=
   let O := modelOps env
-  match name with
-  | "push" => some (push O args)
-  | "pop" => some (pop O)
-  | "shift" => some (shift O)
-  | "unshift" => some (unshift O args)
-  | "slice" => some (slice O env args)
-  | "indexOf" => some (indexOf O env args)
-  | _ => none
+  let (name, callable) := splitBang name
+  if name = "concat" then (cargs? ps argTok).map (concat O) else
+  match vals? argTok with
+  | none => none
+  | some args =>
+    match name with
+    | "push" => some (push O args)
+    | "pop" => some (pop O)
+    | "shift" => some (shift O)
+    | "unshift" => some (unshift O args)
+    | "slice" => some (slice O env args)
+    | "indexOf" => some (indexOf O env args)
+    | "reverse" => some (reverse O)
+    | "join" => some (join O env args)
+    | "splice" => some (splice O env args)
+    | "lastIndexOf" => some (lastIndexOf O env args)
+    | "every" => some (every O callable)
+    | "some" => some (some_ O callable)
+    | "forEach" => some (forEach O callable)
+    | "map" => some (map O callable)
+    | "filter" => some (filter O callable)
+    | "reduce" => some (reduce O callable args)
+    | "reduceRight" => some (reduceRight O callable args)
+    | _ => none
 
-def specMethod (name : String) (args : List Val) : Option (M St Ret) :=
+def specMethod (ps : List (Nat × Val)) (name : String) (argTok : String) : Option (M St Ret) :=
   let O := Spec.specOps env
-  match name with
-  | "push" => some (Spec.push O args)
-  | "pop" => some (Spec.pop O)
-  | "shift" => some (Spec.shift O)
-  | "unshift" => some (Spec.unshift O args)
-  | "slice" => some (Spec.slice O env args)
-  | "indexOf" => some (Spec.indexOf O env args)
-  | _ => none
+  let (name, callable) := splitBang name
+  if name = "concat" then (cargs? ps argTok).map (Spec.concat O) else
+  match vals? argTok with
+  | none => none
+  | some args =>
+    match name with
+    | "push" => some (Spec.push O args)
+    | "pop" => some (Spec.pop O)
+    | "shift" => some (Spec.shift O)
+    | "unshift" => some (Spec.unshift O args)
+    | "slice" => some (Spec.slice O env args)
+    | "indexOf" => some (Spec.indexOf O env args)
+    | "reverse" => some (Spec.reverse O)
+    | "join" => some (Spec.join O env args)
+    | "splice" => some (Spec.splice O env args)
+    | "lastIndexOf" => some (Spec.lastIndexOf O env args)
+    | "every" => some (Spec.every O callable)
+    | "some" => some (Spec.some_ O callable)
+    | "forEach" => some (Spec.forEach O callable)
+    | "map" => some (Spec.map O callable)
+    | "filter" => some (Spec.filter O callable)
+    | "reduce" => some (Spec.reduce O callable args)
+    | "reduceRight" => some (Spec.reduceRight O callable args)
+    | _ => none
 
 def modelSide : Side :=
   { put := objectPut env, del := objectDelete, define := defineOwnProperty env,
-    newLen := arrayUint32 env, ops := modelOps env, method := modelMethod }
+    newLen := arrayUint32 env, freeze := freeze env, ops := modelOps env, method := modelMethod }
 
 def specSide : Side :=
   { put := Spec.put env, del := Spec.delete, define := Spec.defineOwn env,
-    newLen := Spec.lengthOf env, ops := Spec.specOps env, method := specMethod }
-
-/-- Object.freeze / Object.seal / Object.preventExtensions: set-up primitives (C07's subject),
-    the same direct state change on both sides. -/
-def freezeObj (o : Obj) : Obj :=
-  { o with ext := false, props := o.props.map fun (k, p) => (k, { p with w := false, c := false }) }
-def sealObj (o : Obj) : Obj :=
-  { o with ext := false, props := o.props.map fun (k, p) => (k, { p with c := false }) }
+    newLen := Spec.lengthOf env, freeze := Spec.freeze env, ops := Spec.specOps env, method := specMethod }
 
 def logOut (log : List (List Val)) : String :=
   if log.isEmpty then "" else "~" ++ ";".intercalate (log.reverse.map fun a => ",".intercalate (a.map valOut))
@@ -188,8 +233,14 @@ def step (S : Side) (o : Obj) (t : String) : Option (String × Obj) :=
     match S.define k ⟨v, w, e, c⟩ true o with
     | .ok _ o' => pure ("ok", o')
     | .err e o' => pure (errOut e, o')
-  | ["frz"] => pure ("ok", freezeObj o)
-  | ["seal"] => pure ("ok", sealObj o)
+  | ["frz"] =>
+    match S.freeze false o with
+    | .ok _ o' => pure ("ok", o')
+    | .err e o' => pure (errOut e, o')
+  | ["seal"] =>
+    match S.freeze true o with
+    | .ok _ o' => pure ("ok", o')
+    | .err e o' => pure (errOut e, o')
   | ["noext"] => pure ("ok", { o with ext := false })
   | ["new", v] => do
     let v ← val? v
@@ -199,8 +250,8 @@ def step (S : Side) (o : Obj) (t : String) : Option (String × Obj) :=
       | none => pure ("ERangeError", o)
     | _ => pure ("L1", o)
   | ["call", m, args, rets] => do
-    let args ← vals? args; let rets ← vals? rets
-    let f ← S.method m args
+    let rets ← vals? rets
+    let f ← S.method o.proto m args
     match f { o := o, rets := rets } with
     | .ok r s => pure (retOut r ++ logOut s.log, s.o)
     | .err e s => pure (errOut e ++ logOut s.log, s.o)
@@ -229,18 +280,57 @@ def addDev (acc : List String) (d : String) : List String := if acc.contains d t
 /-- regions of one step, evaluated on the object the *model* has reached before the step -/
 def stepDev (o : Obj) (t : String) : List String :=
   match t.splitOn "/" with
-  | "put" :: k :: _ | "def" :: k :: _ =>
+  | ["put", k, _] =>
     match key? k with
     | some (.name s) => if o.isArr ∧ stringToArrayIndexRaw s ≥ 0 then ["index_noncanonical"] else []
     | _ => []
-  | ["call", "slice", args, _] =>
-    match vals? args with
-    | some args =>
-      let O := modelOps env
-      let s : St := { o := o }
-      let (a, b) := rangeStartEnd env args (O.len s)
-      if (List.range (b - a).toNat).any (fun j => !O.has s (a.toNat + j)) then ["hole_to_undefined"] else []
-    | none => []
+  | ["def", k, v, _, _, _] =>
+    match key? k with
+    | some (.name s) => if o.isArr ∧ stringToArrayIndexRaw s ≥ 0 then ["index_noncanonical"] else []
+    | some .length =>
+      match val? v with
+      | some v => if o.isArr ∧ arrayUint32 env v = some (arrLength o) ∧ lengthWritable o = false
+                  then ["length_same_value_not_writable"] else []
+      | none => []
+    | _ => []
+  | ["frz"] | ["seal"] =>
+    if o.isArr ∧ o.props.any (fun (k, _) => match k with | .name s => stringToArrayIndexRaw s ≥ 0 | _ => false)
+    then ["index_noncanonical"] else []
+  | ["call", m, argTok, _] =>
+    let O := modelOps env
+    let s : St := { o := o }
+    let len := O.len s
+    let holeIn (a n : Nat) : Bool := (List.range n).any (fun j => !O.has s (a + j))
+    let present (_ : Unit) : Nat := ((List.range len).filter (O.has s)).length
+    match m, vals? argTok with
+    | "slice", some args =>
+      let (a, b) := rangeStartEnd env args len
+      if holeIn a.toNat (b - a).toNat then ["hole_to_undefined"] else []
+    | "splice", some args =>
+      let start := (valueToRangeIndex env (argAt args 0) len false).toNat
+      let dc : Nat := if args.length > 1 then (valueToRangeIndex env (argAt args 1) ((len : Int) - start) true).toNat else len - start
+      (if args.length = 0 ∧ len > 0 then ["splice_no_arguments"] else [])
+        ++ (if args.length = 1 ∧ len - start > 0 then ["splice_one_argument"] else [])
+        ++ (if args.length > 1 ∧ holeIn start dc then ["hole_to_undefined"] else [])
+    | "map", some _ => if holeIn 0 len then ["hole_to_undefined"] else []
+    | "reverse", some _ =>
+      let fragile : Bool := !o.ext || o.props.any (fun (k, p) => match k with | .idx _ => !p.c | _ => false)
+      if fragile ∧ (List.range (len / 2)).any (fun lo => !O.has s lo && O.has s (len - lo - 1)) then ["reverse_delete_before_put"] else []
+    | "lastIndexOf", some args =>
+      let i := toI64 env (argAt args 1)
+      let i := if i < 0 then i + len else i
+      if args.length > 1 ∧ i = len ∧ O.has s len then ["lastIndexOf_from_length"] else []
+    | "reduce", some args => if args.length = 0 ∧ len > 0 ∧ present () = 0 then ["reduce_no_element"] else []
+    | "reduceRight", some args =>
+      (if args.length = 0 ∧ len > 0 ∧ present () = 0 then ["reduce_no_element"] else [])
+        ++ (if present () ≥ (if args.length = 0 then 2 else 1) then ["reduceRight_index_string"] else [])
+    | "concat", _ =>
+      match cargs? o.proto argTok with
+      | some items =>
+        if holeIn 0 len ∨ items.any (fun it => match it with | .arr es => es.any Option.isNone | _ => false)
+        then ["hole_to_undefined"] else []
+      | none => []
+    | _, _ => []
   | _ => []
 
 def histDev (o : Obj) (steps : List String) : List String :=
